@@ -20,6 +20,24 @@ namespace XmppModel.Header
 
 abbrev Str := List Char
 
+/-! name and value constants (kept as definitions so that proofs can treat them as atoms) -/
+def kId : Str := "id".toList
+def kTo : Str := "to".toList
+def kFrom : Str := "from".toList
+def kXmlLang : Str := "xml:lang".toList
+def kXmlnsStream : Str := "xmlns:stream".toList
+def kXmlnsColon : Str := "xmlns:".toList
+def kXmlns : Str := "xmlns".toList
+def kVersion : Str := "version".toList
+def kStreamStream : Str := "stream:stream".toList
+def kOpen : Str := "open".toList
+def kOneZero : Str := "1.0".toList
+def kXml : Str := "xml".toList
+def kStream : Str := "stream".toList
+def kLang : Str := "lang".toList
+def kSlashGt : Str := "/>".toList
+def kGt : Str := ">".toList
+
 /-- `isInCharacterRange` of `encoding/xml` -/
 def xmlChar (c : Char) : Bool :=
   let n := c.toNat
@@ -65,20 +83,30 @@ def xmlDecl : Str := "<?xml version=\"1.0\" encoding=\"UTF-8\"?>".toList
 
 def contentNS (s2s : Bool) : Str := if s2s then nsServer else nsClient
 
+/-- ` name=<q>value<q>` with the value printed as it is -/
+def printRaw (name : Str) (q : Char) (v : Str) : Str := ' ' :: (name ++ '=' :: q :: (v ++ [q]))
+
 /-- ` name='escaped value'`, nothing when the value is empty -/
 def printOpt (name : Str) (v : Str) : Str :=
-  if v = [] then [] else ' ' :: name ++ '=' :: '\'' :: escapeText v ++ ['\'']
+  if v = [] then [] else printRaw name '\'' (escapeText v)
 
-/-- `internal/stream.Send` (version is always `stream.DefaultVersion`) -/
+/-- the attributes that are not under the library's control -/
+def printOpts (a : HdrArgs) : Str :=
+  printOpt kId a.id ++ (printOpt kTo a.to ++ (printOpt kFrom a.src ++
+    printOpt kXmlLang a.lang))
+
+/-- `internal/stream.Send` (version is always `stream.DefaultVersion`): the format strings
+`<open xmlns="urn:ietf:params:xml:ns:xmpp-framing" version='%s'` and
+`<?xml …?><stream:stream xmlns='%s' xmlns:stream='http://etherx.jabber.org/streams' version='%s'`
+followed by the optional attributes and `/>` or `>` -/
 def printHeader (a : HdrArgs) : Str :=
-  (if a.ws then
-    "<open xmlns=\"urn:ietf:params:xml:ns:xmpp-framing\" version='1.0'".toList
-   else
-    xmlDecl ++ "<stream:stream xmlns='".toList ++ contentNS a.s2s ++
-      "' xmlns:stream='http://etherx.jabber.org/streams' version='1.0'".toList) ++
-  printOpt "id".toList a.id ++ printOpt "to".toList a.to ++ printOpt "from".toList a.src ++
-  printOpt "xml:lang".toList a.lang ++
-  (if a.ws then "/>".toList else ">".toList)
+  if a.ws then
+    '<' :: (kOpen ++ (printRaw kXmlns '"' nsFraming ++
+      (printRaw kVersion '\'' kOneZero ++ (printOpts a ++ kSlashGt))))
+  else
+    xmlDecl ++ '<' :: (kStreamStream ++ (printRaw kXmlns '\'' (contentNS a.s2s) ++
+      (printRaw kXmlnsStream '\'' nsStream ++
+        (printRaw kVersion '\'' kOneZero ++ (printOpts a ++ kGt)))))
 
 /-! ## reading -/
 
@@ -160,15 +188,15 @@ def readAttrs : Nat → Str → Option (List (Str × Str) × Bool)
   | fuel + 1, s =>
     if (s.dropWhile isSpace).head? = some '>' then some ([], false)
     else if (s.dropWhile isSpace).take 2 = ['/', '>'] then some ([], true)
-    else if ((s.dropWhile isSpace).span isNameChar).1 = [] then none
+    else if (s.dropWhile isSpace).takeWhile isNameChar = [] then none
     else
-      match ((s.dropWhile isSpace).span isNameChar).2 with
+      match ((s.dropWhile isSpace).dropWhile isNameChar) with
       | '=' :: q :: s2 =>
         if q = '\'' ∨ q = '"' then
           match readValue q s2 {} with
           | some (v, s3) =>
             if followOK s3 then
-              (readAttrs fuel s3).map fun r => ((((s.dropWhile isSpace).span isNameChar).1, v) :: r.1, r.2)
+              (readAttrs fuel s3).map fun r => (((s.dropWhile isSpace).takeWhile isNameChar, v) :: r.1, r.2)
             else none
           | none => none
         else none
@@ -178,23 +206,23 @@ def readAttrs : Nat → Str → Option (List (Str × Str) × Bool)
 def stripPrefix (pre : Str) (s : Str) : Option Str :=
   if pre.isPrefixOf s then some (s.drop pre.length) else none
 
+/-- what follows the first `?>` -/
+def afterDeclEnd : Str → Str
+  | [] => []
+  | c :: r => if c = '?' ∧ r.head? = some '>' then r.drop 1 else afterDeclEnd r
+
 /-- skip an XML declaration `<?xml … ?>` if the input starts with one -/
 def skipDecl (s : Str) : Str :=
   match s with
-  | '<' :: '?' :: 'x' :: 'm' :: 'l' :: rest =>
-    let rec go : Str → Str
-      | '?' :: '>' :: r => r
-      | _ :: r => go r
-      | [] => []
-    go rest
+  | '<' :: '?' :: 'x' :: 'm' :: 'l' :: rest => afterDeclEnd rest
   | _ => s
 
 def readTag (s : Str) : Option RawTag :=
   match (skipDecl s).dropWhile isSpace with
   | '<' :: s1 =>
-    match s1.span isNameChar with
-    | ([], _) => none
-    | (n, s2) => (readAttrs (s2.length + 1) s2).map fun r => ⟨n, r.1, r.2⟩
+    if s1.takeWhile isNameChar = [] then none
+    else (readAttrs ((s1.dropWhile isNameChar).length + 1) (s1.dropWhile isNameChar)).map fun r =>
+      ⟨s1.takeWhile isNameChar, r.1, r.2⟩
   | _ => none
 
 /-! ## namespace resolution (the names `encoding/xml` reports) -/
@@ -215,29 +243,30 @@ def splitName (n : Str) : Str × Str :=
   | _ => ([], n)
 
 def lookupNS (attrs : List (Str × Str)) (pfx : Str) : Option Str :=
-  (attrs.find? fun a => a.1 = "xmlns:".toList ++ pfx).map (·.2)
+  (attrs.find? fun a => a.1 = kXmlnsColon ++ pfx).map (·.2)
 
 def defaultNS (attrs : List (Str × Str)) : Str :=
-  ((attrs.find? fun a => a.1 = "xmlns".toList).map (·.2)).getD []
+  ((attrs.find? fun a => a.1 = kXmlns).map (·.2)).getD []
 
-/-- `Decoder.translate` for a start tag at the top of a document -/
+/-- `Decoder.translate` for the element name of a start tag at the top of a document -/
+def resolveElem (attrs : List (Str × Str)) (name : Str) : QName :=
+  if (splitName name).1 = [] then ⟨defaultNS attrs, (splitName name).2⟩
+  else if (splitName name).1 = kXml then ⟨nsXML, (splitName name).2⟩
+  else match lookupNS attrs (splitName name).1 with
+    | some u => ⟨u, (splitName name).2⟩
+    | none => ⟨(splitName name).1, (splitName name).2⟩
+
+/-- `Decoder.translate` for an attribute name -/
+def resolveAttr (attrs : List (Str × Str)) (a : Str × Str) : QName × Str :=
+  if (splitName a.1).1 = [] then (⟨[], (splitName a.1).2⟩, a.2)
+  else if (splitName a.1).1 = kXmlns then (⟨kXmlns, (splitName a.1).2⟩, a.2)
+  else if (splitName a.1).1 = kXml then (⟨nsXML, (splitName a.1).2⟩, a.2)
+  else match lookupNS attrs (splitName a.1).1 with
+    | some u => (⟨u, (splitName a.1).2⟩, a.2)
+    | none => (⟨(splitName a.1).1, (splitName a.1).2⟩, a.2)
+
 def resolve (t : RawTag) : Start :=
-  let el := splitName t.name
-  let elName : QName :=
-    if el.1 = [] then ⟨defaultNS t.attrs, el.2⟩
-    else if el.1 = "xml".toList then ⟨nsXML, el.2⟩
-    else match lookupNS t.attrs el.1 with
-      | some u => ⟨u, el.2⟩
-      | none => ⟨el.1, el.2⟩
-  let attr (a : Str × Str) : QName × Str :=
-    let n := splitName a.1
-    if n.1 = [] then (⟨[], n.2⟩, a.2)
-    else if n.1 = "xmlns".toList then (⟨"xmlns".toList, n.2⟩, a.2)
-    else if n.1 = "xml".toList then (⟨nsXML, n.2⟩, a.2)
-    else match lookupNS t.attrs n.1 with
-      | some u => (⟨u, n.2⟩, a.2)
-      | none => (⟨n.1, n.2⟩, a.2)
-  ⟨elName, t.attrs.map attr⟩
+  ⟨resolveElem t.attrs t.name, t.attrs.map (resolveAttr t.attrs)⟩
 
 def readHeader (s : Str) : Option Start := (readTag s).map resolve
 
@@ -249,16 +278,16 @@ def optAttr (space loc : Str) (v : Str) : List (QName × Str) :=
 /-- the start element a parser must see for these arguments -/
 def expected (a : HdrArgs) : Start :=
   if a.ws then
-    ⟨⟨nsFraming, "open".toList⟩,
-      [(⟨[], "xmlns".toList⟩, nsFraming), (⟨[], "version".toList⟩, "1.0".toList)] ++
-      optAttr [] "id".toList a.id ++ optAttr [] "to".toList a.to ++ optAttr [] "from".toList a.src ++
-      optAttr nsXML "lang".toList a.lang⟩
+    ⟨⟨nsFraming, kOpen⟩,
+      [(⟨[], kXmlns⟩, nsFraming), (⟨[], kVersion⟩, kOneZero)] ++
+      optAttr [] kId a.id ++ optAttr [] kTo a.to ++ optAttr [] kFrom a.src ++
+      optAttr nsXML kLang a.lang⟩
   else
-    ⟨⟨nsStream, "stream".toList⟩,
-      [(⟨[], "xmlns".toList⟩, contentNS a.s2s), (⟨"xmlns".toList, "stream".toList⟩, nsStream),
-       (⟨[], "version".toList⟩, "1.0".toList)] ++
-      optAttr [] "id".toList a.id ++ optAttr [] "to".toList a.to ++ optAttr [] "from".toList a.src ++
-      optAttr nsXML "lang".toList a.lang⟩
+    ⟨⟨nsStream, kStream⟩,
+      [(⟨[], kXmlns⟩, contentNS a.s2s), (⟨kXmlns, kStream⟩, nsStream),
+       (⟨[], kVersion⟩, kOneZero)] ++
+      optAttr [] kId a.id ++ optAttr [] kTo a.to ++ optAttr [] kFrom a.src ++
+      optAttr nsXML kLang a.lang⟩
 
 /-- same element, attributes compared as a set (attribute order is not significant) -/
 def sameStart (x y : Start) : Bool :=
